@@ -53,7 +53,19 @@ def ont_validity(it):
     return 'ok' if it['valid'] else ONT_FLAVOURS[it['flavour']]
 
 
-def event_xml(idx, typ, source, flavour='ok', big=0):
+# object values whose white space matters: a parser must deliver them as they are, however the input is cut
+TRICKY = ['a\nb', ' lead', 'trail ', 'tab\there', 'two\n\nbreaks', 'é\nü', 'x &amp; y', ' \n. ', 'a  b']
+# values that consist of white space only (valid string objects): see the known finding of C06
+BLANKS = ['  ', ' ', '\n  \n', '\n', '\t']
+
+
+def tricky_values(idx, blank=False):
+    """The extra objects (property q) of event idx; none for every other event."""
+    pool = BLANKS if blank else TRICKY
+    return [pool[(idx * 5) % len(pool)]] if (idx % 2 == 0 or blank) else []
+
+
+def event_xml(idx, typ, source, flavour='ok', big=0, blank=False):
     e = etree.Element('{%s}event' % NS, nsmap={None: NS})
     e.set('event-type', typ)
     e.set('source-uri', source)
@@ -61,12 +73,18 @@ def event_xml(idx, typ, source, flavour='ok', big=0):
     etree.SubElement(props, '{%s}p' % NS).text = 'v%d' % idx
     if big:
         etree.SubElement(props, '{%s}q' % NS).text = 'x' * big
+    elif flavour == 'ok':
+        for v in tricky_values(idx, blank):
+            etree.SubElement(props, '{%s}q' % NS).text = v
     if flavour == 'undeclared':
         etree.SubElement(props, '{%s}zz' % NS).text = 'x'
     elif flavour == 'missing':
         props.remove(props[0])
         etree.SubElement(props, '{%s}q' % NS).text = 'v%d' % idx
     xml = etree.tostring(e)
+    if idx % 4 == 1:
+        # attributes separated by a line break
+        xml = xml.replace(b'" source-uri=', b'"\nsource-uri=', 1)
     return xml.replace(b' xmlns="%s"' % NS.encode(), b'', 1)
 
 
@@ -95,7 +113,8 @@ def build_document(items, version='3.0.0', pretty=False):
             x = ontology_xml(it['types'], it['sources'], flavour)
             x = x.replace(b' xmlns="%s"' % NS.encode(), b'', 1)
         elif it['k'] == 'event':
-            x = event_xml(it['idx'], it['type'], it['source'], 'ok' if it['gate'] else it.get('flavour', 'undeclared'), it.get('big', 0))
+            x = event_xml(it['idx'], it['type'], it['source'], 'ok' if it['gate'] else it.get('flavour', 'undeclared'), it.get('big', 0),
+                          it.get('blank', False))
         else:
             x = foreign_xml(it['idx'])
         parts.append(x)
@@ -122,7 +141,7 @@ def run_parser(data, mode, regs, overridden, validate, cuts=None, file_path=None
     """Run an instrumented parser. mode: 'pull' | 'push'. Returns the observation dict."""
     from edxml import EDXMLPullParser, EDXMLPushParser
     from edxml.error import EDXMLValidationError, EDXMLEventValidationError, EDXMLOntologyValidationError
-    log, sizes, seen, state = [], [], set(), {'parent': None}
+    log, sizes, seen, state, content = [], [], set(), {'parent': None}, {}
 
     def note(event):
         idx = int(next(iter(event['p']))[1:]) if 'p' in event.get_properties() and event['p'] else \
@@ -130,6 +149,8 @@ def run_parser(data, mode, regs, overridden, validate, cuts=None, file_path=None
         parent = event.getparent()
         if idx not in seen:
             seen.add(idx)
+            if 'p' in event.get_properties() and event['p']:
+                content[idx] = sorted(str(v) for v in event['q'])
             sizes.append(parent.index(event) + 1 if parent is not None else -1)
             state['parent'] = parent
         return idx
@@ -187,6 +208,7 @@ def run_parser(data, mode, regs, overridden, validate, cuts=None, file_path=None
         'log': log, 'err': err, 'nEvents': parser.get_event_counter(),
         'typeCount': sorted([t, parser.get_event_type_counter(t)] for t in TYPES),
         'sizes': sizes, 'children': len(parent) if parent is not None and err is None else None,
+        'content': sorted([i, v] for i, v in content.items()),
     }
 
 
@@ -201,7 +223,11 @@ def model_view(reply, items, with_children=True):
             log.append(c)
     tc = dict((k, v) for k, v in reply['typeCount'])
     seen = {c[-1] for c in reply['log'] if c[0] in ('h', 'fb')}
-    return {'log': log, 'err': reply['err'], 'nEvents': reply['nEvents'],
+    by_idx = {it['idx']: it for it in items if it['k'] == 'event'}
+    content = sorted([i, sorted(tricky_values(i, by_idx[i].get('blank', False))) if (by_idx[i]['gate'] and not by_idx[i].get('big')) else
+                      (['x' * by_idx[i]['big']] if by_idx[i].get('big') and by_idx[i]['gate'] else [])] for i in seen
+                     if by_idx[i]['gate'] or by_idx[i].get('flavour', 'undeclared') != 'missing')
+    return {'log': log, 'err': reply['err'], 'nEvents': reply['nEvents'], 'content': content,
             'typeCount': sorted([t, tc.get(t, 0)] for t in TYPES),
             'sizes': [sz for i, sz in reply['sizes'] if i in seen], 'children': reply['children'] if with_children and reply['err'] is None else None}
 
